@@ -174,6 +174,19 @@ pub fn cmd_enum(args: &[String]) {
     }
 }
 
+/// Replay of a stored observation: exactly these bytes, this split, this configuration.
+pub fn cmd_raw(args: &[String]) {
+    let cases = std::fs::read_to_string(&args[0]).expect("cases");
+    let mut out = std::io::BufWriter::new(std::fs::File::create(&args[1]).expect("out"));
+    for line in cases.lines().filter(|l| !l.trim().is_empty()) {
+        let c: J = serde_json::from_str(line).expect("case json");
+        let (mech, creds, canfd) = cfg_of(&c);
+        let stream: Vec<u8> = c["stream"].as_array().unwrap().iter().map(|x| x.as_u64().unwrap() as u8).collect();
+        let releases: Vec<usize> = c["rel"].as_array().unwrap().iter().map(|x| x.as_u64().unwrap() as usize).collect();
+        run_case(&SrvCase { id: c["id"].clone(), var: "raw".into(), mech, creds, canfd, stream, releases, abs: json!({}) }, &mut out);
+    }
+}
+
 /// Random transcripts: well-formed commands with random arguments (random hex of random length and
 /// case, long lines, non-UTF-8 bytes), occasional missing NUL / bad endings, random chunking.
 pub fn cmd_rand(args: &[String]) {
